@@ -13,7 +13,9 @@ def build():
     for p in PROPS:
         try:
             mod = importlib.import_module(f"fav.props.{p.lower()}")
-        except ModuleNotFoundError:
+            if not all(hasattr(mod, a) for a in ("LEVEL_TEXT", "LEVEL_NOTE", "TECHNIQUE", "run")):
+                raise ModuleNotFoundError(p)
+        except Exception:
             na.append(dict(property_id=p, reason="check not built yet in this round (planned in DESIGN.md section 6); not claimed"))
             continue
         checks.append(dict(
